@@ -1,6 +1,7 @@
 package main
 
 import (
+	"go/token"
 	"go/types"
 
 	"golang.org/x/tools/go/ssa"
@@ -700,5 +701,108 @@ func ruleReplayDoesNotRecord(c *Ctx) {
 	}
 	if n == 0 {
 		c.note("-", "no loop over a list of records on the Container", "-", "nothing to decide")
+	}
+}
+
+// C11.n — the root pattern "/" is registered at most once per mux. The function that may register it (it contains a
+// mux registration with the constant pattern "/" and reports it through a boolean result) is called only where the
+// flag that receives that result is known to be false: `if !flag { flag = addHandler(...) }`, in Add (the Container's
+// field) and in the rebuild loop of Remove (its local). Without the guard a second service whose fixed prefix is the
+// root registers "/" again and http.ServeMux panics - in Remove, in the middle of the rebuild.
+func ruleRootRegisteredOnce(c *Ctx) {
+	p := c.P
+	n := 0
+	registersRoot := func(fn *ssa.Function) bool {
+		if fn == nil || fn.Blocks == nil || fn.Signature.Results().Len() != 1 {
+			return false
+		}
+		if b, ok := fn.Signature.Results().At(0).Type().Underlying().(*types.Basic); !ok || b.Kind() != types.Bool {
+			return false
+		}
+		found := false
+		eachInstr(fn, func(i ssa.Instruction) {
+			if cc := callCommon(i); cc != nil {
+				switch calleeName(cc) {
+				case "(*net/http.ServeMux).HandleFunc", "(*net/http.ServeMux).Handle":
+					if k, isC := constStr(cc.Args[1]); isC && k == "/" {
+						found = true
+					}
+				}
+			}
+		})
+		return found
+	}
+	for _, fn := range p.SrcFunc {
+		if fn.Blocks == nil || !p.inModule(fn) {
+			continue
+		}
+		name := p.fname(fn)
+		var facts map[*ssa.BasicBlock]map[condFact]bool
+		eachInstr(fn, func(i ssa.Instruction) {
+			call, ok := i.(*ssa.Call)
+			if !ok || call.Call.StaticCallee() == nil || !registersRoot(call.Call.StaticCallee()) {
+				return
+			}
+			n++
+			if facts == nil {
+				facts = factsAt(fn)
+			}
+			// where the result goes: a field, or a variable carried round a loop
+			var fields []*types.Var
+			phis := map[*ssa.Phi]bool{}
+			var follow func(v ssa.Value, d int)
+			follow = func(v ssa.Value, d int) {
+				if d > 3 {
+					return
+				}
+				for _, r := range referrers(v) {
+					switch y := r.(type) {
+					case *ssa.Store:
+						if fa, ok := y.Addr.(*ssa.FieldAddr); ok && y.Val == v {
+							fields = append(fields, fieldOfAddr(fa))
+						}
+					case *ssa.Phi:
+						if !phis[y] {
+							phis[y] = true
+							follow(y, d+1)
+						}
+					}
+				}
+			}
+			follow(call, 0)
+			guarded := false
+			for f := range facts[call.Block()] {
+				root := condRoot(f.Cond)
+				neg := 0
+				for v := f.Cond; ; {
+					u, ok := v.(*ssa.UnOp)
+					if !ok || u.Op != token.NOT {
+						break
+					}
+					neg++
+					v = u.X
+				}
+				isFalse := f.Pol == (neg%2 == 1)
+				if !isFalse {
+					continue
+				}
+				if ph, ok := root.(*ssa.Phi); ok && phis[ph] {
+					guarded = true
+				}
+				if _, fld, ok := fieldLoad(strip(root)); ok {
+					for _, g := range fields {
+						if g == fld {
+							guarded = true
+						}
+					}
+				}
+			}
+			c.check(guarded, name, "the function that may register \"/\" is called only while the root flag is false", p.ipos(call),
+				"controlled by the false value of the flag its result is stored in",
+				"this call can register the pattern \"/\" although an earlier call already has: for two services whose fixed prefix is the root http.ServeMux panics on the second registration (in Remove: in the middle of the rebuild, leaving the container half rewritten)")
+		})
+	}
+	if n == 0 {
+		c.note("-", "no function registers the constant pattern \"/\" and reports it", "-", "nothing to decide")
 	}
 }
